@@ -94,7 +94,7 @@ def rand_value(rng, depth=0, maxdepth=3, dup_keys=False):
         return raw, node("r", raw)
     if k in (9, 10):
         n = rng.choice([0, 1, 2, 3, 15, 16, 17]) if depth < 2 else rng.randrange(3)
-        kids = [rand_value(rng, depth + 1, maxdepth) for _ in range(n)]
+        kids = [rand_value(rng, depth + 1, maxdepth, dup_keys) for _ in range(n)]
         hdr = enc_len(rng, n, (0x90, 16), [(0xDC, 2), (0xDD, 4)])
         return hdr + b"".join(b for b, _ in kids), node("a", c=[v for _, v in kids])
     n = rng.choice([0, 1, 2, 3, 15, 16]) if depth < 2 else rng.randrange(3)
@@ -102,7 +102,7 @@ def rand_value(rng, depth=0, maxdepth=3, dup_keys=False):
     if not dup_keys:
         keys = list(dict.fromkeys(keys))
         n = len(keys)
-    kids = [rand_value(rng, depth + 1, maxdepth) for _ in range(n)]
+    kids = [rand_value(rng, depth + 1, maxdepth, dup_keys) for _ in range(n)]
     # a string value is sometimes the text of one of the map's own keys
     kids = [(enc_str(rng, kk), node("s", kk)) if rng.random() < 0.2 else kid
             for kid, kk in zip(kids, [rng.choice(keys) if keys else b"" for _ in kids])]
@@ -128,7 +128,8 @@ def line(inp, lim=10, f=None, tag="", **extra):
 def gen_valid(rng, n, wants):
     out = []
     for _ in range(n):
-        b, v = rand_value(rng)
+        # a map may repeat a key (MessagePack allows it): every entry is kept, in order
+        b, v = rand_value(rng, dup_keys=rng.random() < 0.3)
         d = nesting(v)
         out.append(line(b, lim=max(d, rng.choice([d, 10, 255])), tag="valid"))
         wants.append(v)
